@@ -37,3 +37,27 @@ func init() {
 	addMutant(Mutant{Name: "c31-opts-dropped", Property: "C31", File: "ytypes/container.go",
 		Old: "return unmarshalStruct(schema, parent, jt, enc, opts...)", New: "return unmarshalStruct(schema, parent, jt, enc)", Expect: "unmarshalStruct"})
 }
+
+func init() {
+	// C28
+	addMutant(Mutant{Name: "c28-tag-zero", Property: "C28", File: "protogen/protogen.go",
+		Old: "|| v <= 1000 {", New: "|| (v >= 1 && v <= 1000) {", Expect: "fieldTag:returned-set"})
+	addMutant(Mutant{Name: "c28-tag-reserved", Property: "C28", File: "protogen/protogen.go",
+		Old: "if (v >= 19000 && v <= 19999) || v <= 1000 {", New: "if (v > 19000 && v <= 19999) || v <= 1000 {", Expect: "fieldTag:returned-set"})
+	addMutant(Mutant{Name: "c28-tag-mask", Property: "C28", File: "protogen/protogen.go",
+		Old: "h.Sum32() & 0x1fffffff", New: "h.Sum32() & 0x3fffffff", Expect: "fieldTag:mask"})
+	addMutant(Mutant{Name: "c28-no-collision-check", Property: "C28", File: "protogen/protogen.go",
+		Old: "\t\tif err := checkUniqueFieldTags(msgDef); err != nil {\n\t\t\terrs = append(errs, err)\n\t\t\tcontinue\n\t\t}\n", New: "", Expect: "render#1:checked"})
+	addMutant(Mutant{Name: "c28-collision-check-logged", Property: "C28", File: "protogen/protogen.go",
+		Old: "\t\tif err := checkUniqueFieldTags(msgDef); err != nil {\n\t\t\terrs = append(errs, err)\n\t\t\tcontinue\n\t\t}\n", New: "\t\tif err := checkUniqueFieldTags(msgDef); err != nil {\n\t\t\t_ = err\n\t\t}\n", Expect: "render#1:checked"})
+	addMutant(Mutant{Name: "c28-identity-overwrite", Property: "C28", File: "protogen/protogen.go",
+		Old: "\t\t\t\tif other, ok := values[int64(tag)]; ok {", New: "\t\t\t\tif other, ok := values[int64(tag)]; ok && tag == 0 {", Expect: "identity-value-store"})
+	addMutant(Mutant{Name: "c28-tag-counter-arg", Property: "C28", File: "protogen/protogen.go",
+		Old: "ft, err := fieldTag(fmt.Sprintf(\"%s_%s\", path, strings.ToLower(tn)))", New: "ft, err := fieldTag(fmt.Sprintf(\"%s_%d\", path, len(oofs)))", Expect: "fieldTag-arg"})
+	addMutant(Mutant{Name: "c28-keytag-cond", Property: "C28", File: "protogen/protogen.go",
+		Old: "\t\tkm.Fields = append(km.Fields, fd)\n\t\tctag++", New: "\t\tkm.Fields = append(km.Fields, fd)\n\t\tif !fd.IsOneOf {\n\t\t\tctag++\n\t\t}", Expect: "genListKeyProto:counter"})
+	addMutant(Mutant{Name: "c28-clash-guard-rawname", Property: "C28", File: "protogen/protogen.go",
+		Old: "if args.field.Name == fieldName {", New: "if args.field.Name == k {", Expect: "name-clash-guard"})
+	addMutant(Mutant{Name: "c28-oneof-not-checked", Property: "C28", File: "protogen/protogen.go",
+		Old: "\t\t\tif f.IsOneOf {\n\t\t\t\tif err := check(f.OneOfFields); err != nil {\n\t\t\t\t\treturn err\n\t\t\t\t}\n\t\t\t\tcontinue\n\t\t\t}\n", New: "\t\t\tif f.IsOneOf {\n\t\t\t\tcontinue\n\t\t\t}\n", Expect: "checkUniqueFieldTags:shape"})
+}
